@@ -26,7 +26,9 @@ class World:
     required_probes = ["defective_generator", "shifted_start", "coarser_step",
                        "edit_between_make_and_use", "reassign_rate", "zero_rate",
                        "refused_diagonal", "unaligned_shift", "complex_spectrum", "main_axis_start_nonzero", "propagation_matrix_with_corrections", "step_ratio_not_an_exact_integer",
-                       "two_propagation_results_kept", "long_shift_just_off_a_whole_coarse_step"]
+                       "two_propagation_results_kept", "long_shift_just_off_a_whole_coarse_step",
+                       "storage_replaced_by_another_size", "propagation_continued_from_earlier_result",
+                       "shifted_start_with_more_than_100_points"]
     required_faults = ["refused_diagonal_set", "refused_bad_assignment"]
     components = {
         "real": ["quantarhei RateMatrix.set_rate", "PopulationPropagator.propagate",
@@ -50,7 +52,7 @@ class World:
         N = rng.choice([2, 2, 3, 3, 4, 5, 6])
         shape = rng.choice(["generic", "generic", "chain_equal", "cyclic", "sparse", "from_data"])
         dt = rng.choice(DTS) if rng.random() < 0.85 else rng.choice(INEXACT_DTS)
-        Nt = rng.choice([8, 16, 33, 64, 120])
+        Nt = rng.choice([8, 16, 33, 64, 120, 400])
         t0 = rng.choice([0.0, 0.0, 0.0, 3.0, -3.0, 0.5, 12.0, -0.25]) if dt in DTS else 0.0
         if dt in INEXACT_DTS:
             Nt = rng.choice([100, 200])      # room for coarse steps whose floating-point ratio to dt is not an exact integer
@@ -89,13 +91,16 @@ class World:
                 if rng.random() < 0.3:
                     p0 = [0.0] * N
                     p0[rng.randrange(N)] = 1.0
-                ops.append({"op": "propagate", "p0": p0})
+                ops.append({"op": "propagate", "p0": p0, "cont": rng.random() < 0.25})
             else:
                 m = rng.choice([1, 2, 3, 4, 5])
                 if dt in INEXACT_DTS and rng.random() < 0.5:
                     m = rng.choice([43, 81, 86, 91] if dt == 0.1 else [31, 57, 62])
                 s = rng.choice([0, 0, 1, 2, 3, 5, 7])
                 ln = rng.randint(2, 12)
+                if Nt >= 400 and rng.random() < 0.5:
+                    ln = rng.randint(101, 160)      # long sub-axes
+                    m = rng.choice([1, 2])
                 ops.append({"op": "prop_matrix", "m": m, "s": s, "len": ln, "corr": rng.choice([-1, -1, -1, 0, 1, 2]),
                             "exact": rng.random() < 0.5})
         if long_fine:
@@ -107,7 +112,11 @@ class World:
                          "len": rng.randint(2, 4), "corr": -1, "exact": False}
                 new.append(o)
             ops = new
-        return {"N": N, "shape": shape, "dt": dt, "Nt": Nt, "t0": t0, "ops": ops,
+        built_dim = None
+        if rng.random() < 0.15:
+            # the matrix object is created with another size and given its N x N storage afterwards (set_data / load_data)
+            built_dim = rng.choice([1, N + 2, max(1, N - 1)])
+        return {"N": N, "shape": shape, "dt": dt, "Nt": Nt, "t0": t0, "built_dim": built_dim, "via_file": rng.random() < 0.5, "ops": ops,
                 "init": ([[round(rng.uniform(0, kscale / N), 6) for _ in range(N)] for _ in range(N)]
                          if shape == "from_data" else None)}
 
@@ -120,6 +129,23 @@ class World:
         N, dt, Nt = program["N"], program["dt"], program["Nt"]
         ctx.ev("cfg", N, program["shape"], dt, Nt)
 
+        def give_storage(rm, K):
+            """The documented ways of replacing the storage of a MatrixData object: set_data, or load_data from a file."""
+            if program.get("via_file"):
+                import os
+                import tempfile
+                d = tempfile.mkdtemp(prefix="qsim-rate-", dir=os.environ.get("QSIM_SCRATCH"))
+                try:
+                    src = RateMatrix(data=K)
+                    src.save_data(os.path.join(d, "k.npy"))
+                    rm.load_data(os.path.join(d, "k.npy"))
+                finally:
+                    import shutil
+                    shutil.rmtree(d, ignore_errors=True)
+            else:
+                rm.set_data(K)
+            ctx.probe("storage_replaced_by_another_size")
+
         model = {}                      # (i,j) -> rate, i != j
         if program.get("init"):
             K0 = numpy.array(program["init"], dtype=numpy.float64)
@@ -131,9 +157,17 @@ class World:
                 for j in range(N):
                     if i != j:
                         model[(i, j)] = K0[i, j]
-            rm = RateMatrix(data=K0.copy())
+            if program.get("built_dim") and program["built_dim"] != N:
+                rm = RateMatrix(dim=program["built_dim"])
+                give_storage(rm, K0.copy())
+            else:
+                rm = RateMatrix(data=K0.copy())
         else:
-            rm = RateMatrix(dim=N)
+            if program.get("built_dim") and program["built_dim"] != N:
+                rm = RateMatrix(dim=program["built_dim"])
+                give_storage(rm, numpy.zeros((N, N)))
+            else:
+                rm = RateMatrix(dim=N)
 
         hist = {"max": 0.0}
         kept = []                       # (what, the array object handed out, a private copy taken at once)
@@ -238,12 +272,21 @@ class World:
                     prop = PopulationPropagator(axis, rate_matrix=rm)
                     K_at_make = Kmodel()
                 p0 = numpy.array(op["p0"][:N] + [0.0] * max(0, N - len(op["p0"])), dtype=float)
+                p_in = p0.copy()
+                earlier = [k for k in kept if k[0].startswith("propagate")]
+                if op.get("cont") and earlier:
+                    # the run is continued from the last point of an earlier result (a row of that array, not a copy)
+                    p_in = earlier[-1][1][-1]
+                    p0 = numpy.array(p_in, dtype=float).copy()
+                    ctx.probe("propagation_continued_from_earlier_result")
                 Know = check_matrix("before propagate %d" % idx)
                 try:
-                    pops = prop.propagate(p0.copy())
+                    pops = prop.propagate(p_in)
                 except Exception as e:
                     raise Violation("propagate-raised", "%s: %s" % (type(e).__name__, e))
                 pops = numpy.asarray(pops)
+                check(numpy.array_equal(numpy.asarray(p_in, dtype=float), p0), "input-changed",
+                      lambda: "op %d: propagate changed the initial populations it was given: %r -> %r" % (idx, p0.tolist(), numpy.asarray(p_in).tolist()))
                 if len(kept) < 6:
                     kept.append(("propagate at op %d" % idx, pops, pops.copy()))
                     if sum(1 for k in kept if k[0].startswith("propagate")) >= 2:
@@ -303,6 +346,8 @@ class World:
                     ctx.probe("coarser_step")
                 if not exact and abs(round(float(sub.step) / dt) - float(sub.step) / dt) > 0:
                     ctx.probe("step_ratio_not_an_exact_integer")
+                if s > 0 and ln > 100:
+                    ctx.probe("shifted_start_with_more_than_100_points")
                 if s > 0:
                     ctx.probe("shifted_start")
                     if s % m != 0:
